@@ -39,6 +39,11 @@ open XlVerif.Lemmas.C02
     left-associative, and the unary minus above them, right-associative -/
 theorem tableOK_gen : TableOK Gen.operators := by unfold TableOK; decide
 
+/-- `TableOK` is a condition on order and associativity, not on the literal numbers: an equivalent
+    renumbering of the table still satisfies it -/
+example : TableOK (Gen.operators.map fun r => { r with prec := 10 * r.prec + 3 }) := by
+  unfold TableOK; decide
+
 /-- the tokenizer's error-literal list holds the seven codes, none a proper prefix of another -/
 theorem errTableOK_gen : ErrTableOK Gen.tokErrorLiterals := by
   intro c
